@@ -304,7 +304,10 @@ def cache_rules(run, db):
     cz = db.cls(FT + 'ChirpZTransformExecutor')
     f = db.method(cz, 'czt2')
     fill = db.method(cz, '_setup_bases')
-    keyas = [n for n in walk_no_nested(f.node) if isinstance(n, ast.Assign) and isinstance(n.targets[0], ast.Name) and n.targets[0].id == 'key']
+    # the key is whatever local czt2 hands to the fill routine
+    knames = {c.args[0].id for c in walk_no_nested(f.node) if isinstance(c, ast.Call) and ast.unparse(c.func) == 'self._setup_bases'
+              and len(c.args) == 1 and isinstance(c.args[0], ast.Name)}
+    keyas = [n for n in walk_no_nested(f.node) if isinstance(n, ast.Assign) and isinstance(n.targets[0], ast.Name) and n.targets[0].id in knames]
     if len(keyas) != 1 or not isinstance(keyas[0].value, ast.Tuple):
         raise AnalysisError('czt2: key tuple not found')
     # def-use closure of the key over the locals of czt2
@@ -326,9 +329,12 @@ def cache_rules(run, db):
     for prm in f.params[1:]:
         run.check(prm in closure, 'C01.cache', f.qual, 'key component ' + prm, 'chirp-Z key depends on %s' % prm,
                   'chirp-Z cache key does not depend on the argument %s' % prm, f.loc(keyas[0]))
-    run.check('dtype' in _names(keyas[0].value), 'C01.cache', f.qual, 'key component dtype', 'chirp-Z key contains the dtype', 'chirp-Z key omits the dtype', f.loc(keyas[0]))
+    dtn = {t.id for n in walk_no_nested(f.node) if isinstance(n, ast.Assign) and isinstance(n.value, ast.Attribute) and n.value.attr == 'dtype'
+           for t in n.targets if isinstance(t, ast.Name)}
+    has_dtype = bool(dtn & _names(keyas[0].value)) or any(isinstance(x, ast.Attribute) and x.attr == 'dtype' for x in ast.walk(keyas[0].value))
+    run.check(has_dtype, 'C01.cache', f.qual, 'key component dtype', 'chirp-Z key contains the dtype', 'chirp-Z key omits the dtype', f.loc(keyas[0]))
     # fill slice reads nothing but the key
-    unp = [n for n in walk_no_nested(fill.node) if isinstance(n, ast.Assign) and isinstance(n.value, ast.Name) and n.value.id == 'key']
+    unp = [n for n in walk_no_nested(fill.node) if isinstance(n, ast.Assign) and isinstance(n.value, ast.Name) and n.value.id == fill.params[1]]
     bound = set(fill.params)
     for n in walk_no_nested(fill.node):
         if isinstance(n, ast.Assign):
